@@ -21,11 +21,17 @@ uninterp spec fn rpx_int(value: f32, ratio: f32) -> Option<i32>;
 fn vx_rpx_arith(value: f32, ratio: f32) -> (r: (f32, Option<i32>))
     ensures r.0 == rpx_val(value, ratio), r.1 == rpx_int(value, ratio),
 { unimplemented!() }
-spec fn rpx_emits(next: StepToken, has_sign: bool, value: f32, int_value: Option<i32>, unit: Seq<char>, ratio: f32) -> Seq<Emit> {
+spec fn rpx_converted(next: StepToken, has_sign: bool, value: f32, int_value: Option<i32>, unit: Seq<char>, ratio: f32) -> Seq<Emit> {
     let orig = TokV::Dimension { has_sign, value, int_value, unit };
-    if unit == seq!['r', 'p', 'x'] {
-        seq![Emit { tok: TokV::Dimension { has_sign, value: rpx_val(value, ratio), int_value: rpx_int(value, ratio), unit: seq!['v', 'w'] }, pos: next.position, src: Some(orig), keep_space: false }]
-    } else {
-        seq![Emit { tok: orig, pos: next.position, src: None, keep_space: false }]
-    }
+    seq![Emit { tok: TokV::Dimension { has_sign, value: rpx_val(value, ratio), int_value: rpx_int(value, ratio), unit: seq!['v', 'w'] }, pos: next.position, src: Some(orig), keep_space: false }]
+}
+spec fn rpx_unchanged(next: StepToken, has_sign: bool, value: f32, int_value: Option<i32>, unit: Seq<char>) -> Seq<Emit> {
+    seq![Emit { tok: TokV::Dimension { has_sign, value, int_value, unit }, pos: next.position, src: None, keep_space: false }]
+}
+/// `rpx` is converted, a unit that is not `rpx` in any letter case is not.  Other letter cases of `rpx` (`RPX`, `Rpx`): CSS unit
+/// names are ASCII case-insensitive, the property text writes the unit in lower case -- either reading is accepted.
+spec fn rpx_emits_ok(got: Seq<Emit>, next: StepToken, has_sign: bool, value: f32, int_value: Option<i32>, unit: Seq<char>, ratio: f32) -> bool {
+    if unit == seq!['r', 'p', 'x'] { got == rpx_converted(next, has_sign, value, int_value, unit, ratio) }
+    else if lower(unit) != seq!['r', 'p', 'x'] { got == rpx_unchanged(next, has_sign, value, int_value, unit) }
+    else { got == rpx_converted(next, has_sign, value, int_value, unit, ratio) || got == rpx_unchanged(next, has_sign, value, int_value, unit) }
 }
